@@ -374,8 +374,8 @@ Theorem run_from_poolerr_no_open_worker c s0 inputs script p s' :
   run_from c s0 inputs script = (PoolErr p, s') -> any_open c s' = false.
 Proof.
   intros NR Hc E. pose proof (run_from_inv c s0 inputs script Hc) as RI. rewrite E in RI.
-  destruct RI as [X|[Iv G]]; [discriminate|].
-  unfold run_from in E. destruct (negb (any_open c s0)); [discriminate|].
+  destruct RI as [Iv G].
+  unfold run_from in E.
   destruct (first_enqueue c (fuel_of c) (reset c s0 inputs) (S (extra c))) as [s1|o] eqn:Ef.
   2:{ pose proof (first_enqueue_inv c inputs (fuel_of c) (S (extra c)) _ (reset_inv c s0 inputs Hc)) as H.
       rewrite Ef in H. cbn in H. inversion E; subst. discriminate. }
